@@ -9,13 +9,14 @@ PROVED
   §5     END TO END on a fragment (`pairs_exact_flat_partial`, `owners_exact_flat_partial`, `edges_exact_flat_partial`,
          `analyze_total_flat_partial`; machinery in `Proofs/ColumnsExact.lean`): for `INSERT INTO T <q>` (no column list),
          `CREATE TABLE T AS <q>`, `CREATE VIEW T AS <q>` (no column list) without metadata provider, `<q>` ONE select block
-         over base tables (comma list and joins, any aliases), no subquery anywhere, not reading `T`, every column
-         reference qualified (by anything) or — over a single table reference — unqualified: `analyze` succeeds and the
-         LINEAGE edges of the statement holder are EXACTLY the pairs of the specification `ColumnsExact.specPairs`
-         (a function of the AST alone), the HAS_COLUMN edges exactly the owner edges of these pairs, the HAS_ALIAS edges
-         exactly those of the table references, and there is no other edge.  The proof follows `analyze` → `exWriteQuery` →
-         `exQuery` → `finishBranches` → `endOfQueryCleanup` → `cleanupGroup` → `cleanupItem` → `addColumnLineage` →
-         `expandWildcard` → `compose` with an invariant (`ColumnsExact.Wired`).
+         over base tables (comma list and joins, any aliases; it may read `T` itself), no subquery anywhere, column
+         references qualified (by anything), unqualified over a single table reference (resolved to it) or unqualified over
+         several relations (left unresolved): `analyze` succeeds and the LINEAGE edges of the statement holder are EXACTLY the
+         pairs of the specification `ColumnsExact.specPairs` (a function of the AST alone), the HAS_COLUMN edges exactly the
+         owner edges of these pairs, the HAS_ALIAS edges exactly those of the table references, and there is no other edge.
+         The proof follows `analyze` → `exWriteQuery` → `exQuery` → `finishBranches` → `endOfQueryCleanup` → `cleanupGroup` →
+         `cleanupItem` → `addColumnLineage` → `expandWildcard` → `compose` with an invariant (`ColumnsExact.Wired`).
+         `dev_unknown_qualifier_positional`: the one shape excluded inside this syntax class, with its witness.
 
 NOT PROVED (kept as a comment at the end): `pairs_exact` for all of `Frag02` — see the list there.  What ties the rest to the
 code is the SQL‑level correspondence of `harness/c02.py`.
@@ -205,18 +206,22 @@ The fragment `ColumnsExact.fragStmt env s` (a decidable predicate on the AST):
   * `<q>` is ONE select block; its FROM clause is any comma list / join chain of base tables (`feOK`: with or without alias,
     any qualification, ON conditions without subqueries); no subquery in a select item (`noSub`; CASE, functions, casts,
     wildcards are all inside) or in WHERE;
-  * the written table is not read by the block (`o.d ≠ T` for every table reference `o`);
   * written aliases are unambiguous (`aliasesUnambiguous`: the same written alias twice means the same table);
-  * every column reference of every select item is either qualified — by ANY name: what the name denotes is `resolveQ`
-    (written alias > name of a table without alias > qualified name > bare name, else a table of that name in the fallback
-    schema), and it must not denote the written table — or unqualified, and then the FROM clause is exactly one table
-    reference (`refOK`).
+  * every column reference of every select item (`refOK`) is
+      – qualified, by ANY name: what the name denotes is `resolveQ` (written alias > name of a table without alias >
+        qualified name > bare name, else a table of that name in the fallback schema).  Only when the block does not read
+        the written table `T`, the name must not denote `T` (`avoidOf`; see `dev_unknown_qualifier_positional` below for what
+        happens otherwise);
+      – or unqualified over exactly one table reference: it is a column of that table;
+      – or unqualified, not `*`, over names denoting at least two different relations (`twoRelations`): it is left
+        UNRESOLVED — the source is the column without owner, `Node.col c none`, never a guess.
+  * the block may read the table it writes.
 
 No metadata provider (`env.prov.truthy = false`); every `env.revStar`, default schema, render option.
 
 The specification `ColumnsExact.specPairs` only looks at the AST:
-  { (key of column `c` of the relation the reference denotes, key of the column of `T` named by the naming rule of §1)
-    | item `e [AS a]` of the select list, `(c, q?) ∈ refs e` }.  -/
+  { (key of column `c` of the relation the reference denotes — or of nobody —, key of the column of `T` named by the naming
+     rule of §1) | item `e [AS a]` of the select list, `(c, q?) ∈ refs e` }.  -/
 
 section endToEnd
 open ColumnsExact Graph
@@ -284,26 +289,32 @@ theorem edges_exact_flat_partial (env : Env) (silent : Bool) (s : Stmt) (g : LGr
     · exact ((hx.hasColumn u v).mpr h1).1
     · exact ((hx.hasAlias u v).mpr h1).1
 
-/-- the written table owns every target column of a pair; the source column hangs from what its reference denotes -/
+/-- the written table owns every target column of a pair; a source column hangs from the owner recorded in its key (a
+    resolved reference), an unresolved one from nobody -/
 theorem target_owned_flat_partial (env : Env) (silent : Bool) (s : Stmt) (g : LGraph) (hp : env.prov.truthy = false)
     (hs : fragStmt env s = true) (h : analyze env silent s = .ok g) (u v : Node)
     (hl : (u, v) ∈ g.edges ∧ g.ety u v = some .lineage) :
     ((Node.ds (mkTable env (stmtTarget s) none).d, v) ∈ g.edges ∧
       g.ety (.ds (mkTable env (stmtTarget s) none).d) v = some .hasColumn) ∧
-    ∃ d, colParent u = some d ∧ (Node.ds d, u) ∈ g.edges ∧ g.ety (.ds d) u = some .hasColumn := by
+    (∀ d, colParent u = some d → (Node.ds d, u) ∈ g.edges ∧ g.ety (.ds d) u = some .hasColumn) ∧
+    (colParent u = none → ∀ w, ¬((w, u) ∈ g.edges ∧ g.ety w u = some .hasColumn)) := by
   have hk := (pairs_exact_flat_partial env silent s g hp hs h u v).mp hl
   obtain ⟨e, a, k, _, r, _, hu, hv⟩ := (mem_specPairs _ _ _ _ u v).mp hk
-  refine ⟨(owners_exact_flat_partial env silent s g hp hs h _ v).mpr ?_, ?_⟩
+  refine ⟨(owners_exact_flat_partial env silent s g hp hs h _ v).mpr ?_, ?_, ?_⟩
   · rw [mem_specOwners]
     exact ⟨(u, v), hk, Or.inr ⟨_, by rw [hv]; rfl, rfl⟩⟩
-  · have hsrc : ∃ d, colParent u = some d := by
-      obtain ⟨d', wh, grp, hav, hf⟩ := fragStmt_select env s hs
-      rw [hu]
-      exact srcCol_owned env _ d' _ _ wh grp hav hf e a k (by assumption) r (by assumption)
-    obtain ⟨d, hd⟩ := hsrc
-    refine ⟨d, hd, (owners_exact_flat_partial env silent s g hp hs h _ u).mpr ?_⟩
+  · intro d hd
+    refine (owners_exact_flat_partial env silent s g hp hs h _ u).mpr ?_
     rw [mem_specOwners]
     exact ⟨(u, v), hk, Or.inl ⟨d, hd, rfl⟩⟩
+  · intro hnone w hw
+    have := (owners_exact_flat_partial env silent s g hp hs h w u).mp hw
+    rw [mem_specOwners] at this
+    obtain ⟨p, _, ⟨d, hd, hx⟩ | ⟨d, hd, hx⟩⟩ := this
+    · have : u = p.1 := congrArg Prod.snd hx
+      rw [this, hd] at hnone; cases hnone
+    · have : u = p.2 := congrArg Prod.snd hx
+      rw [this, hd] at hnone; cases hnone
 
 /-! #### reading the specification (all by `ColumnsExact`): keys of target and source columns, what a qualifier denotes -/
 
@@ -322,6 +333,12 @@ theorem spec_source_key_qualified (imp : String) (tabs : List DObj) (c q : Strin
 theorem spec_source_key_unqualified (imp : String) (t : DObj) (ht : t.d.isTable = true) (c : String) :
     (srcCol imp [t] (c, none)).key = .col (t.printed ++ "." ++ c) (some t.d) :=
   srcCol_key_unqualified imp t ht c
+
+/-- source column key of an unqualified reference over SEVERAL table references: the column without owner — the reference is
+    left unresolved, never attributed to one of the tables -/
+theorem spec_source_key_unresolved (imp : String) (tabs : List DObj) (h : tabs.length ≠ 1) (c : String) :
+    (srcCol imp tabs (c, none)).key = .col c none :=
+  srcCol_key_unresolved imp tabs h c
 
 /-- a written alias denotes its table, whatever other tables of the FROM clause are called (cf. `fixed_D7`) -/
 theorem spec_alias_denotes (imp : String) (tabs : List DObj) (hU : aliasesUnambiguous tabs = true) (o : DObj) (ho : o ∈ tabs)
@@ -351,6 +368,27 @@ def exCtas : Stmt :=
       [.mk (.table ["s", "ta"] (some "a") false)
         [.mk "join" (.table ["s", "tb"] none false) (some (.bin "=" (.col ["a"] "k") (.col ["tb"] "k"))) []]]
       (some (.bin ">" (.col ["a"] "x") (.lit "1"))) [] none) false
+
+/-- `create table t3 as select a.x, y, k + b.k as kk from s.ta a join s.tb as b on a.k = b.k`: `y` and `k` are unqualified over
+    two relations — the model leaves them unresolved (a column without owner) -/
+def exJoinUnq : Stmt :=
+  .ctas ["t3"] false false
+    (.select false
+      [.mk (.col ["a"] "x") none false,
+       .mk (.col [] "y") none false,
+       .mk (.bin "+" (.col [] "k") (.col ["b"] "k")) (some "kk") true]
+      [.mk (.table ["s", "ta"] (some "a") false)
+        [.mk "join" (.table ["s", "tb"] (some "b") true) (some (.bin "=" (.col ["a"] "k") (.col ["b"] "k"))) []]]
+      none [] none) false
+
+/-- `insert into s.t select t.a, u.b as c from s.t, s.u`: the statement reads the table it writes (`s.t.a → s.t.a`) -/
+def exSelf : Stmt :=
+  .insert .insertInto false ["s", "t"] none
+    (.select false
+      [.mk (.col ["t"] "a") none false,
+       .mk (.col ["u"] "b") (some "c") true]
+      [.mk (.table ["s", "t"] none false) [], .mk (.table ["s", "u"] none false) []]
+      none [] none) false
 
 /-- the LINEAGE edges of an analysis result, in graph order -/
 def lineageEdges (r : Except Err LGraph) : List (Node × Node) :=
@@ -385,6 +423,53 @@ example : lineageEdges (analyze {} false exCtas) =
 example : specPairs {} (stmtTarget exCtas) (stmtItems exCtas) (stmtFrom exCtas) =
     lineageEdges (analyze {} false exCtas) := by decide +kernel
 
+example : fragStmt {} exJoinUnq = true := by decide +kernel
+example : fragStmt {} exSelf = true := by decide +kernel
+
+example : lineageEdges (analyze {} false exJoinUnq) =
+    [(.col "s.ta.x" (some (.table "s" "ta")), .col "<default>.t3.x" (some (.table "<default>" "t3"))),
+     (.col "y" none, .col "<default>.t3.y" (some (.table "<default>" "t3"))),
+     (.col "k" none, .col "<default>.t3.kk" (some (.table "<default>" "t3"))),
+     (.col "s.tb.k" (some (.table "s" "tb")), .col "<default>.t3.kk" (some (.table "<default>" "t3")))] := by
+  decide +kernel
+
+example : specPairs {} (stmtTarget exJoinUnq) (stmtItems exJoinUnq) (stmtFrom exJoinUnq) =
+    lineageEdges (analyze {} false exJoinUnq) := by decide +kernel
+
+example : lineageEdges (analyze {} false exSelf) =
+    [(.col "s.t.a" (some (.table "s" "t")), .col "s.t.a" (some (.table "s" "t"))),
+     (.col "s.u.b" (some (.table "s" "u")), .col "s.t.c" (some (.table "s" "t")))] := by
+  decide +kernel
+
+example : specPairs {} (stmtTarget exSelf) (stmtItems exSelf) (stmtFrom exSelf) =
+    lineageEdges (analyze {} false exSelf) := by decide +kernel
+
+/-- Why a qualifier may not denote a written table that is not read (`avoidOf`): such a reference makes the written table
+    own SOURCE columns, so `write_columns` can reach the number of select items in the middle of the loop and the rest of
+    the items is wired by POSITION.  `insert into foo select foo.x as a, foo.y as b, 1 as l1, foo.z as c from bar`: after two
+    items `foo` owns `a, x, b, y` — four columns, as many as there are items — and `foo.z` goes to `write_columns[3] = foo.y`
+    instead of `foo.c`.  Reproduced on the implementation (`get_column_lineage`: `foo.z -> foo.y -> foo.b`); the statement
+    is outside `fragStmt`. -/
+def exOwnSources : Stmt :=
+  .insert .insertInto false ["foo"] none
+    (.select false
+      [.mk (.col ["foo"] "x") (some "a") true,
+       .mk (.col ["foo"] "y") (some "b") true,
+       .mk (.lit "1") (some "l1") true,
+       .mk (.col ["foo"] "z") (some "c") true]
+      [.mk (.table ["bar"] none false) []]
+      none [] none) false
+
+theorem dev_unknown_qualifier_positional :
+    fragStmt {} exOwnSources = false ∧
+    lineageEdges (analyze {} false exOwnSources) =
+      [(.col "<default>.foo.x" (some (.table "<default>" "foo")), .col "<default>.foo.a" (some (.table "<default>" "foo"))),
+       (.col "<default>.foo.y" (some (.table "<default>" "foo")), .col "<default>.foo.b" (some (.table "<default>" "foo"))),
+       (.col "<default>.foo.z" (some (.table "<default>" "foo")), .col "<default>.foo.y" (some (.table "<default>" "foo")))] ∧
+    (.col "<default>.foo.z" (some (.table "<default>" "foo")), .col "<default>.foo.c" (some (.table "<default>" "foo"))) ∈
+      specPairs {} (stmtTarget exOwnSources) (stmtItems exOwnSources) (stmtFrom exOwnSources) := by
+  decide +kernel
+
 /-- the theorem instantiated: whatever graph the analysis of `exInsert` returns, its LINEAGE edges are these three pairs -/
 example (g : LGraph) (h : analyze {} false exInsert = .ok g) (u v : Node) :
     ((u, v) ∈ g.edges ∧ g.ety u v = some .lineage) ↔
@@ -408,10 +493,10 @@ end endToEnd
 
   Proved: the restriction `pairs_exact_flat_partial` (§5) to `ColumnsExact.fragStmt`, stated on the LINEAGE edges of the
   statement holder `analyze env silent s` against `ColumnsExact.specPairs`.  Missing for the full statement:
-    * unqualified references over SEVERAL table references (the model leaves them unresolved — a column without owner —
-      `unqualified_candidates_are_scope`; the invariant `ColumnsExact.Wired` already allows owner‑less sources, what is
-      missing is `amValues` of a many‑table alias map and `Column.parent? = none` for ≥ 2 candidates);
-    * statements reading the table they write (`write_columns` is then empty because the target is also read);
+    * inside one flat block: an unqualified `*` over several relations (one source per relation, in `amValues` order),
+      unqualified references over several table references that all denote the SAME relation, ambiguous written aliases,
+      a qualifier denoting a written table that is not read (`dev_unknown_qualifier_positional`: the model and the code
+      wire by position there);
     * an explicit column list, a metadata provider (target columns by POSITION, `positional_wiring`; wildcard expansion), set
       operations (union barriers; D6), a plain SELECT (no target: `cleanupGroup` adds nothing);
     * nested queries (derived tables, CTEs, subqueries in expressions): the same invariant through the 30‑function mutual
